@@ -601,27 +601,64 @@ func runC18(c *Ctx) {
 		nSrv++
 		ok2, why := false, "stored value is not net.JoinHostPort(Config.Server, <port>)"
 		if call, isC := s.Val.(*ssa.Call); isC && calleeName(&call.Call) == "net.JoinHostPort" && c.cfgFieldLoad(call.Call.Args[0], "Server") {
-			port, _ := constString(call.Call.Args[1])
-			ssl, sslKnown, noPort := false, false, false
+			noPort := false
+			sslOf := func(cds []Cond) (ssl, known bool) {
+				for _, cd := range cds {
+					cd = unwrapNot(cd)
+					if c.cfgFieldLoad(cd.V, "SSL") {
+						return cd.True, true
+					}
+				}
+				return false, false
+			}
 			for _, cd := range CondsAt(s.Block()) {
 				cd = unwrapNot(cd)
-				if c.cfgFieldLoad(cd.V, "SSL") {
-					ssl, sslKnown = cd.True, true
-				}
 				if hc, isH := cd.V.(*ssa.Call); isH && hc.Call.StaticCallee() != nil && hc.Call.StaticCallee().Name() == "hasPort" && c.cfgFieldLoad(hc.Call.Args[0], "Server") && !cd.True {
 					noPort = true
 				}
 			}
-			want := "6667"
-			if ssl {
-				want = "6697"
+			portOK := func(k string, ssl, known bool) bool {
+				want := "6667"
+				if ssl {
+					want = "6697"
+				}
+				return known && k == want
 			}
-			ok2 = sslKnown && noPort && port == want
-			why = fmt.Sprintf("port %q under SSL=%v (known=%v), on the no-port edge=%v", port, ssl, sslKnown, noPort)
+			okPort, desc := false, ""
+			switch pv := call.Call.Args[1].(type) {
+			case *ssa.Const:
+				k, _ := constString(pv)
+				ssl, known := sslOf(CondsAt(s.Block()))
+				okPort, desc = portOK(k, ssl, known), fmt.Sprintf("port %q under SSL=%v (known=%v)", k, ssl, known)
+			case *ssa.Phi:
+				okPort = len(pv.Edges) >= 2
+				sawSSL, sawPlain := false, false
+				for i, e := range pv.Edges {
+					k, isK := constString(e)
+					pred := pv.Block().Preds[i]
+					cds := CondsAt(pred)
+					if cd, okc := edgeCond(pred, pv.Block()); okc {
+						cds = append([]Cond{cd}, cds...)
+					}
+					ssl, known := sslOf(cds)
+					if !isK || !portOK(k, ssl, known) {
+						okPort = false
+					}
+					if ssl {
+						sawSSL = true
+					} else {
+						sawPlain = true
+					}
+					desc += fmt.Sprintf("%q when SSL=%v; ", k, ssl)
+				}
+				okPort = okPort && sawSSL && sawPlain
+			}
+			ok2 = okPort && noPort
+			why = fmt.Sprintf("%s on the no-port edge=%v", desc, noPort)
 		}
 		r.Add("R2", fmt.Sprintf("default-port#%d", nSrv), c.InstrPos(s), c.FuncKey(cn), "default port 6697 with SSL / 6667 without, only when none was given", ok2, why)
 	})
-	r.Exactly("R2", "stores to Config.Server in the connect routine", nSrv, 2)
+	r.Floor("R2", "stores to Config.Server in the connect routine", nSrv, 1)
 
 	// ---- R3
 	hp := a.IntTable["PING"]
